@@ -61,7 +61,7 @@ example : ∃ fs, fs.all FI.ok = true ∧ ∃ d vs p', fmtDec fs d 0 = .ok (vs, 
 
 /-- Every class of `psd_tools.psd` (regenerated from the AST of its reader and writer methods on every run): the `struct`
 items its `read` unpacks are, item by item and in the same order, the items its `write` packs - or the class is one of the
-eleven rows of `ResaveTables.asymmetricFormats`, with exactly the formats listed there. A `write` that packs a field with
+nine rows of `ResaveTables.asymmetricFormats`, with exactly the formats listed there. A `write` that packs a field with
 another format than `read` unpacks (`i` for `I`, `H` for `I`, a field dropped or added) changes its row and breaks this. -/
 theorem read_write_formats_compatible :
     Generated.C02Formats.pairs.all (fun r => r.2.1 == r.2.2 || fmtPairSame r.2.1 r.2.2 ||
